@@ -90,6 +90,8 @@ SUPPORTED = (
     + [{"tag": "message", "mtype": "media", "hasProto": 1, "media": m} for m in
        ("image", "sticker", "audio", "ptt", "video", "gif", "location", "contact", "document", "url", "other")]
     + [{"tag": "message", "mtype": "text", "hasProto": 0}, {"tag": "message", "mtype": "media", "hasProto": 1, "media": "absent", "payload": "other"}]
+    + [{"tag": "message", "mtype": "text", "hasProto": 1, "media": "absent", "payload": p, "text": t, "participant": g}
+       for p in ("conversation", "extendedText") for t in range(1, len(stanzas.TEXTS)) for g in (0, 1)]
 )
 
 
@@ -109,6 +111,8 @@ def rand_desc(r):
         if d["payload"] == "other" and r.random() < 0.85:
             d["pseed"] = r.randrange(1 << 30)        # a generated unpresentable payload (lib/stanzas.unpresentable_payload)
         d["participant"] = r.choice([0, 1])
+        if d["payload"] in ("conversation", "extendedText"):
+            d["text"] = r.choice([0, 0] + list(range(len(stanzas.TEXTS))))
         d["skdm"] = r.choice([0, 0, 1])           # a sender key distribution piggy-backed on the content
     elif tag == "iq":
         d["iqType"] = r.choice(["get", "set", "result", "error"])
@@ -199,7 +203,7 @@ def nontrivial(stream, case):
 
 
 def desc_line(d):
-    return " ".join("%s=%s" % (k, v) for k, v in sorted(d.items()) if k != "participant")
+    return " ".join("%s=%s" % (k, v) for k, v in sorted(d.items()) if k not in ("participant", "text"))
 
 
 def observe_recv(chk, case, seq):
@@ -302,9 +306,14 @@ def _recv_once(chk, case, seq):
     elif (d["tag"] == "message" and d.get("hasProto") and d.get("mtype") == "media" and case["flags"][1] == "1"
           and d.get("media") not in (None, "absent", "other") and d.get("payload") != "keyDistributionOnly"):
         must = "media message"
+    if must == "text message" and raised is None and len(ups) == 1 and got[0] is not None:
+        want = stanzas.TEXTS[d.get("text", 0)]
+        body = got[0].getBody() if hasattr(got[0], "getBody") else getattr(got[0], "text", None)
+        if want is not None and body != want:
+            fails.append(oracle("C06:incoming-text-altered", "text stanza %s with body %r (modules %s): the entity's body is %r" % (desc_line(d), want, case["flags"], body)))
     if must and raised is None and len(ups) != 1:
-        fails.append(oracle("C06:incoming-lost:%s" % must.replace(" ", "-"), "stanza %s (modules %s, encryption layers %s): %d entities reached the application, expected exactly one"
-                            % (desc_line(d), case["flags"], bool(case["enc"]), len(ups))))
+        fails.append(oracle("C06:incoming-lost:%s" % must.replace(" ", "-"), "stanza %s%s (modules %s, encryption layers %s): %d entities reached the application, expected exactly one"
+                            % (desc_line(d), " with body %r" % stanzas.TEXTS[d["text"]] if d.get("text") else "", case["flags"], bool(case["enc"]), len(ups))))
     # ---- oracle (C07): acknowledgements
     if d["tag"] == "notification" and not (d.get("ntype") == "picture" and not d.get("cSet") and not d.get("cDelete")):
         acks = [n for n in sent if n.tag == "ack"]
